@@ -299,6 +299,7 @@ FIXED += [
 ]
 
 FIXED += [
+    "fixed: property=C20 b875fb9 `gen --output-filename '~/out.py'`: the name was used as typed (FileNotFoundError traceback; an existing output under that spelling was not recognised)",
     "fixed: property=C08 20dac37 emit.class_(emit_call=True) on a class parsed from its own emission nested `def __call__` one level deeper on every pass",
     "fixed: property=C06 b3a54b3 emit.class_(emit_call=True) raised KeyError when the return entry has no default",
     "fixed: property=C05 3f2428a parse.argparse_ast kept the line breaks of a word-wrapped help= text in the prose; the next docstring emitter wrote a broken entry",
